@@ -171,4 +171,8 @@ def known_entries(prop, status="known"):
 
 def known_keys(prop):
     """Bucket keys of the listed (not fixed) known findings of a property."""
-    return set(e["key"] for e in known_entries(prop, "known"))
+    out = set()
+    for e in known_entries(prop, "known"):
+        out.add(e["key"])
+        out.update(e.get("also_keys", []))      # other bucket keys of the same root cause
+    return out
